@@ -242,16 +242,9 @@ class Run8:
         return ents
 
     # ---------------------------------------------------------------- sessions
-    def open_session(self, first=False, expect_logs=None):
-        before = None if first else self.last_view
-        self.sess = lsmlib.Session(self.exe, self.root, self.opts)
-        self.events.append(("open", self.sess.open_line))
-        if self.sess.open_line != "OPEN ok":
-            self.problem("needed" if not first else "error", what="open failed", line=self.sess.open_line)
-            self.dead = True
-            return
-        self.dead = False
-        view = self.impl_view()
+    def recovered_tree(self, first=False):
+        """the tree an open has just built: its highest timestamp; notes whether two of its files
+        overlap in key range and in timestamp range (C01's known class K2: recover.rs mis-levels)"""
         dump = self.icmd("dump")
         tree_max = 0
         metas = []
@@ -267,6 +260,19 @@ class Run8:
                     a, b = metas[i], metas[j]
                     if a[0] <= b[1] and b[0] <= a[1] and not (a[3] < b[2] or b[3] < a[2]):
                         self.k2_seen = True
+        return tree_max
+
+    def open_session(self, first=False, expect_logs=None):
+        before = None if first else self.last_view
+        self.sess = lsmlib.Session(self.exe, self.root, self.opts)
+        self.events.append(("open", self.sess.open_line))
+        if self.sess.open_line != "OPEN ok":
+            self.problem("needed" if not first else "error", what="open failed", line=self.sess.open_line)
+            self.dead = True
+            return
+        self.dead = False
+        view = self.impl_view()
+        tree_max = self.recovered_tree(first)
         sums, rolls = [], []
         if not first:
             new = [x for x in view["mstrs"] if x not in before["mstrs"]]
@@ -554,6 +560,90 @@ class Run8:
                 return False
         return True
 
+    def racedrop(self, r):
+        """reader r lets go of its snapshot while a compaction thread performs a selected compaction,
+        placed (harness op racedrop) so that the compaction is about to pin an output X that only
+        the snapshot still references when the reader is inside dec_and's callback for X (count
+        gone, rename to trash not yet done).  The table lock held across the callback makes the pin
+        wait; the fine-grained model (Refs/ModelLock.v) blocks it the same way, so the outcome is
+        that of: the whole release, then the pin.  Returns False when nothing was selected."""
+        if self.dead:
+            return False
+        if self.held.get(r) != "snap":
+            return self.compact()
+        a = self.icmd("select")[0].split(" ")
+        if a[0] == "PANIC":
+            self.events.append(("select", "PANIC"))
+            self.counts["selector_panic"] += 1
+            if self.k2_seen:
+                self.counts["selector_panic_after_reopen"] += 1
+            else:
+                self.problem("error", what="the selector panicked and no reopen of this history recovered a tree of C01's class K2", out=" ".join(a))
+            self.dead = True
+            return False
+        if a[0] != "SELECT" or a[1] == "none":
+            self.counts["none"] += 1
+            return False
+        idx, ins, up = a[1], a[7].split(","), int(a[3])
+        before = self.last_view
+        out = self.icmd("racedrop r%d %s" % (r, idx))[0]
+        kv = dict(x.split("=", 1) for x in out.split(" ")[1:] if "=" in x)
+        if not out.startswith("RACEDROP") or kv.get("perform") != "ok":
+            self.problem("error", what="a compaction racing with a reader's release did not complete", out=out)
+            self.dead = True
+            return False
+        self.held.pop(r, None)
+        self.counts["racedrop"] = self.counts.get("racedrop", 0) + 1
+        self.counts["racedrop_candidates"] = self.counts.get("racedrop_candidates", 0) + (kv.get("candidates", "0") != "0")
+        held, window = kv.get("held", "-"), kv.get("window", "none")
+        self.counts["racedrop_window_" + window] = self.counts.get("racedrop_window_" + window, 0) + 1
+        view = self.impl_view()
+        if len(ins) == 1:
+            self.model.cmd("move")
+            self.counts["move"] += 1
+            obs = self.model.cmd("drop %d" % r)
+        else:
+            e, rolled = self.recent_edits(self.all_edits(), 1)[-1]
+            if sorted(e["rm"]) != sorted(ins):
+                self.problem("corr", what="racing compaction: the manifest's last edit does not remove the selected inputs", edit=str(e)[:400], inputs=ins)
+                self.last_view = view
+                return True
+            self.note_edit(e)
+            self.counts["roll"] += rolled
+            is_gc = (up == NUM_LEVELS - 1)
+            self.counts["gc" if is_gc else "merge"] += 1
+            args = "%s | %s | %d %d" % (",".join(ins), ",".join(e["add"]), rolled, 0 if is_gc else 1)
+            if held == "-":
+                # the compaction never waited: it was over before the reader let go
+                self.model.cmd("compact " + args)
+                obs = self.model.cmd("drop %d" % r)
+            else:
+                # the compaction stopped before pinning `held`; the reader's whole release comes
+                # first (its callback for `held` is where the compaction was let go, and the table
+                # lock keeps the pin out until the rename is done)
+                self.model.cmd("compactbegin @0 " + args)
+                pc = self.model.cmd("pc 2").split(" ")[1:]
+                k = next((i for i, x in enumerate(pc) if x.startswith("pinlink:") and int(x.split(":")[1], 16) == int(held, 16)), None)
+                if k is None:
+                    self.problem("corr", what="racing compaction: the sst it waited at is not one of its outputs", held=held, edit=str(e)[:400])
+                    self.last_view = view
+                    return True
+                if k:
+                    self.model.cmd("step 2 %d" % k)
+                # the release at the fine grain: inside the callback for `held` the compaction
+                # thread is offered its pin; the model says whether it may run
+                fine = self.model.cmd("dropfine %d %s 0" % (r, held)).split(" ", 2)
+                mwin = fine[1] if fine[0] == "DROPFINE" else "?"
+                if window != "none" and mwin != window:
+                    self.counts["racedrop_window_differs"] = self.counts.get("racedrop_window_differs", 0) + 1
+                    self.problem("corr", what="inside the release callback of sst %s the compaction's pin was %s in the implementation and %s in the model (ModelLock.fstep with the table lock)" % (held[:16], window, mwin), name=held, out=out)
+                    window = "reported"
+                obs = self.model.cmd("step 2")
+        if window == "entered":
+            self.problem("corr", what="a compaction pinned and linked sst %s while a reader was inside the release callback of the same sst (count already gone, rename pending): the table of counts is not locked across dec_and's callback" % held[:16], name=held, out=out)
+        self.last_view = self.compare("compaction racing with a reader's release", obs, view)
+        return True
+
     def take(self, r, kind):
         if self.dead or r in self.held:
             return
@@ -724,6 +814,8 @@ class Run8:
         self.dead = False
         self.held = {}
         view = self.impl_view()
+        self.recovered_tree()
+        self.counts["reopen"] += 1
         self.check_needed(view, "reopen after kill inside " + what)
         self.reads()
         self.dead = True          # nothing more is compared against the model in this history
